@@ -499,41 +499,80 @@ fn reference(c: &ParamsConfig) -> Option<Times> {
     r
 }
 
+/// does the text show a clock time (h:mm)?
+/// a message on stdout is not "something computed"; a listing is
+fn stdout_shows_results(stdout: &[u8]) -> bool {
+    let t = String::from_utf8_lossy(stdout);
+    [Prayer::Fajr, Prayer::Dhuhr, Prayer::Asr, Prayer::Maghrib, Prayer::Isha].iter().any(|p| t.lines().any(|l| l.contains(&p.to_string()) && shows_a_time(l)))
+}
+
+fn shows_a_time(l: &str) -> bool {
+    let b = l.as_bytes();
+    (0..b.len().saturating_sub(3)).any(|i| b[i].is_ascii_digit() && b[i + 1] == b':' && b[i + 2].is_ascii_digit() && b[i + 3].is_ascii_digit())
+}
+
+/// Structural check of the terminal listing: for every date of the range there is a line naming
+/// its Hijri date (the library's own rendering) and, between it and the next such line, for each
+/// of the seven prayers a line that names the prayer and shows the library's rendering of its
+/// time - or, where the time does not exist, names the prayer and shows no time. Additional lines,
+/// spacing, order of dates and order of entries are the tool's business.
 fn check_listing(stdout: &[u8], exp: &Times) -> Result<(), String> {
     let text = String::from_utf8_lossy(stdout);
     let lines: Vec<&str> = text.lines().map(|l| l.trim()).filter(|l| !l.is_empty()).collect();
-    if lines.len() != exp.len() * 8 {
-        return Err(format!("listing has {} non-empty lines, expected {} (8 per date for {} dates)", lines.len(), exp.len() * 8, exp.len()));
-    }
-    let mut seen: HashMap<NaiveDate, bool> = HashMap::new();
-    for block in lines.chunks(8) {
-        let header = block[0];
-        let date = exp.keys().find(|d| header.contains(&HijriDate::from(**d).to_string()));
-        let date = match date {
-            Some(d) => *d,
-            None => return Err(format!("header line {header:?} names the Hijri date of no date in the range")),
-        };
-        if seen.insert(date, true).is_some() {
-            return Err(format!("date {date} listed twice"));
+    let hijri: Vec<(NaiveDate, String)> = exp.keys().map(|d| (*d, HijriDate::from(*d).to_string())).collect();
+    // header lines: (line index, date)
+    let mut headers: Vec<(usize, NaiveDate)> = Vec::new();
+    for (i, l) in lines.iter().enumerate() {
+        if let Some((d, _)) = hijri.iter().find(|(_, h)| l.contains(h.as_str())) {
+            headers.push((i, *d));
         }
-        for (prayer, t) in &exp[&date] {
+    }
+    for (d, h) in &hijri {
+        let n = headers.iter().filter(|(_, x)| x == d).count();
+        if n == 0 {
+            return Err(format!("no line shows the Hijri date of {d} ({h})"));
+        }
+        if n > 1 {
+            return Err(format!("date {d} listed {n} times"));
+        }
+    }
+    // dates beyond the range: lines that end like a Hijri date of the library but match no expected date
+    if let Some((_, any)) = hijri.first() {
+        let suffix: String = any.chars().rev().take(5).collect::<String>().chars().rev().collect();
+        let stray = lines.iter().enumerate().filter(|(i, l)| l.contains(suffix.as_str()) && !headers.iter().any(|(hi, _)| hi == i)).count();
+        if stray > 0 {
+            return Err(format!("{stray} line(s) look like the Hijri date of a day outside the range ({} dates expected)", exp.len()));
+        }
+    }
+    for (k, (start, date)) in headers.iter().enumerate() {
+        let end = headers.iter().map(|(i, _)| *i).filter(|i| i > start).min().unwrap_or(lines.len());
+        let _ = k;
+        let block = &lines[start + 1..end];
+        for (prayer, t) in &exp[date] {
             let name = prayer.to_string();
-            let want = match t {
-                Ok(pt) => pt.to_string().trim().to_string(),
-                Err(()) => "Invalid".to_string(),
-            };
-            let cands: Vec<&&str> = block[1..].iter().filter(|l| l.contains(&name)).collect();
-            if cands.len() != 1 {
-                return Err(format!("{date}: {} lines mention {name}", cands.len()));
+            let cands: Vec<&&str> = block.iter().filter(|l| l.contains(&name)).collect();
+            if cands.is_empty() {
+                return Err(format!("{date}: no line for {name}"));
             }
-            let line: &str = cands[0];
-            let ok = line.match_indices(&want).any(|(pos, _)| {
-                let before = line[..pos].chars().last();
-                let after = line[pos + want.len()..].chars().next();
-                !before.map(|c| c.is_ascii_digit()).unwrap_or(false) && !after.map(|c| c.is_ascii_alphanumeric()).unwrap_or(false)
-            }) && (matches!(t, Ok(pt) if pt.extreme) || !line.contains("extreme"));
+            let ok = match t {
+                Ok(pt) => {
+                    let want = pt.to_string().trim().to_string();
+                    cands.iter().any(|line| {
+                        line.match_indices(&want).any(|(pos, _)| {
+                            let before = line[..pos].chars().last();
+                            let after = line[pos + want.len()..].chars().next();
+                            !before.map(|c| c.is_ascii_digit()).unwrap_or(false) && !after.map(|c| c.is_ascii_alphanumeric()).unwrap_or(false)
+                        }) && (pt.extreme || !line.contains("extreme"))
+                    })
+                }
+                Err(()) => cands.iter().any(|line| !shows_a_time(line)),
+            };
             if !ok {
-                return Err(format!("{date} {name}: line {line:?} does not show {want:?}"));
+                let want = match t {
+                    Ok(pt) => format!("{:?}", pt.to_string().trim()),
+                    Err(()) => "no time (the entry does not exist on that day)".to_string(),
+                };
+                return Err(format!("{date} {name}: line {:?} does not show {want}", cands[0]));
             }
         }
     }
@@ -773,8 +812,8 @@ pub fn run_pass(ctx: &Ctx, sc: &Scenario, inject: bool) -> PassResult {
                 if ok0 {
                     viol!("O4-not-rejected", format!("{what} accepted: exit status 0"));
                 }
-                if !child.stdout.is_empty() {
-                    viol!("O4-not-rejected", format!("{what}: {} bytes on stdout", child.stdout.len()));
+                if stdout_shows_results(&child.stdout) {
+                    viol!("O4-not-rejected", format!("{what}: prayer-time entries on stdout ({} bytes)", child.stdout.len()));
                 }
                 if let Some(ev) = created_something(&child.events) {
                     viol!("O4-not-rejected", format!("{what}: a file was opened for writing before the rejection ({ev})"));
